@@ -1,0 +1,45 @@
+//go:build verif
+
+// Machine-checked contracts (gowp, see /verif/DESIGN.md). Comment-only file:
+// nothing here is compiled into the package.
+
+package isaac
+
+//@ spec func geqRS(pr int, ps base.Stage, lr int, ls base.Stage) bool = pr > lr || (pr == lr && stageOrd(ps) >= stageOrd(ls))
+//@ spec func wfLast(l LastPoint) bool = l.IsZero() || validStage(l.stage)
+
+// ---- C06: consensus progress is monotonic --------------------------------
+
+//@ func (LastPoint).Before
+//@   prop C06
+//@   pure
+//@   requires validStage(point.stage)
+//@   requires wfLast(l)
+//@   ensures [zero] l.IsZero() ==> r0
+//@   ensures [height-mono] r0 && !l.IsZero() ==> point.h >= l.h
+//@   ensures [lower-rejected] !l.IsZero() && point.h < l.h ==> !r0
+//@   ensures [higher-accepted] !l.IsZero() && point.h > l.h ==> r0
+//@   ensures [back-only-sc] r0 && !l.IsZero() && point.h == l.h && !geqRS(point.r, point.stage, l.r, l.stage) ==> isSuffrageConfirm && !l.isMajority
+//@   ensures [no-retake] !l.IsZero() && point.h == l.h && point.r == l.r && point.stage == l.stage && isSuffrageConfirm == l.isSuffrageConfirm ==> !r0
+
+//@ func IsNewVoteproofbyPoint
+//@   prop C06
+//@   pure
+//@   requires validStage(point.stage)
+//@   requires wfLast(last)
+//@   ensures [height-mono] r0 && !last.IsZero() ==> point.h >= last.h
+//@   ensures [lower-rejected] !last.IsZero() && point.h < last.h ==> !r0
+//@   ensures [back-only-sc] r0 && !last.IsZero() && point.h == last.h && !geqRS(point.r, point.stage, last.r, last.stage) ==> isSuffrageConfirm && !last.isMajority
+//@   ensures [no-retake] r0 && !last.IsZero() && point.h == last.h && point.r == last.r && point.stage == last.stage && isSuffrageConfirm == last.isSuffrageConfirm ==> !last.isMajority && isMajority
+//@   ensures [extends-before] last.Before(point, isSuffrageConfirm) ==> r0
+
+//@ func IsNewBallot
+//@   prop C06
+//@   requires validStage(point.stage)
+//@   requires wfLast(last)
+//@   ensures r0 == last.Before(point, isSuffrageConfirm)
+
+//@ func NewLastPoint
+//@   prop C06
+//@   ensures [fields] r1 == nil ==> r0.StagePoint == point && r0.isMajority == isMajority && r0.isSuffrageConfirm == isSuffrageConfirm
+//@   ensures [sc-only-init] r1 == nil && isSuffrageConfirm ==> point.stage == "INIT"
